@@ -30,7 +30,9 @@ class Spec(MQSpec):
         return oracles.check_c01(world)
 
     def probes(self, world):
-        return log_probes(world)
+        p = log_probes(world)
+        p.update(feature_probes(world))
+        return p
 
 
 LOG_PROBES = {
@@ -51,4 +53,36 @@ def log_probes(world):
             for name, pat in LOG_PROBES.items():
                 if pat in msg:
                     out[name] = out.get(name, 0) + 1
+    return out
+
+
+def feature_probes(world):
+    """How often each scenario feature was exercised (shape, output form, subscription form, behaviours)."""
+    sc = world.sc
+    out = {'shape_' + str(sc.get('shape')): 1}
+    for nid, spec in sc['nodes'].items():
+        if spec.get('form'):
+            out['form_' + spec['form']] = out.get('form_' + spec['form'], 0) + 1
+        for key in ('skip', 'empty', 'defer_none', 'outputs_filter', 'outputs_metrics', 'sources_low_latency',
+                    'outputs_required', 'start_delay_ns'):
+            if spec.get(key):
+                out['node_' + key] = out.get('node_' + key, 0) + 1
+        if spec.get('outputs_jpg') is not None:
+            out['node_outputs_jpg_' + str(spec['outputs_jpg'])] = out.get('node_outputs_jpg_' + str(spec['outputs_jpg']), 0) + 1
+        for o in spec.get('out') or []:
+            img = o.get('img')
+            if img:
+                k = 'img_pass' if img == 'pass' else 'img_' + img.get('mode', 'raw') + '_' + img.get('fmt', 'BGR')
+                out[k] = out.get(k, 0) + 1
+            if o['name'].startswith('_'):
+                out['hidden_topic'] = out.get('hidden_topic', 0) + 1
+            if o.get('nodata'):
+                out['dataless_frame'] = out.get('dataless_frame', 0) + 1
+        for s in spec.get('sources') or []:
+            sub = s.get('sub')
+            kind = 'all' if sub is None else 'star' if sub == '*' else \
+                'absent' if any(a == 'nope' for a, b in sub) else 'remap' if any(a != b for a, b in sub) else 'explicit'
+            out['sub_' + kind] = out.get('sub_' + kind, 0) + 1
+            if s.get('eph'):
+                out['eph_%d' % s['eph']] = out.get('eph_%d' % s['eph'], 0) + 1
     return out
